@@ -10,6 +10,7 @@
   Every positive theorem is for ALL histories (lists of operations, no bound).
 -/
 import PercevalModel.Lemmas.C05More
+import PercevalModel.Lemmas.C05W10
 
 namespace PM.C05
 
@@ -700,6 +701,156 @@ example : (exec (stepPr false) initPr [.addComp 1, .setFilter 0, .withInput .bs 
     (exec (stepPr false) initPr [.addComp 1, .setFilter 0, .withInput .bs 3 2, .addHerald 2 1]).her = 2 := by
   decide
 
+/-! ## Wave 10: the cache-free machine of the Processor; earlier queries are irrelevant
+
+  `Pr.config` is not closed under the setters (`with_input` reads the heralds of that moment), so the cache-free
+  machine `uStepPr` (Lemmas/C05W10.lean) runs on the user state `PrU` = everything the user's calls wrote
+  (components, heralds, post-selection, detectors, noise ghosts, merged input, filter asked for) and nothing a
+  query writes (stored filter, `auto`, `_inputs_map`, `_simulator`, `_simulator_precision_set`).  `Pr.config` and
+  `Pr.inputCurrent` are read off it.
+-/
+
+/-- Processor: the user state after any history (either variant of the code) is the fold of the cache-free
+machine -/
+theorem processor_user_state_of_history (persist : Bool) (ops : List PrOp) :
+    (exec (stepPr persist) initPr ops).user = ops.foldl uStepPr initPr.user :=
+  exec_user_fold persist initPr ops
+
+/-- Processor: the configuration after any history (either variant of the code) is a function of the history
+alone, computed without any cache -/
+theorem processor_config_of_history (persist : Bool) (ops : List PrOp) :
+    (exec (stepPr persist) initPr ops).config = (ops.foldl uStepPr initPr.user).config := by
+  rw [← user_config, processor_user_state_of_history]
+
+/-- Processor: `inputCurrent` after any history is the same condition on the user state the cache-free machine
+computes -/
+theorem processor_input_current_of_history (persist : Bool) (ops : List PrOp) :
+    (exec (stepPr persist) initPr ops).inputCurrent ↔ (ops.foldl uStepPr initPr.user).inputCurrent := by
+  rw [← user_inputCurrent, processor_user_state_of_history]
+
+/-- Processor, end to end (model in which the automatic filter is not stored): every query after any history
+answers what a fresh processor answers when given the configuration the cache-free machine computes from the
+history; the hypothesis is a condition on that machine's state only -/
+theorem processor_answer_of_history (ops : List PrOp) (q : PrOp) (hq : q.isQuery = true)
+    (hc : (ops.foldl uStepPr initPr.user).inputCurrent) :
+    (stepPr false (exec (stepPr false) initPr ops) q).2 =
+      freshPrQ false (ops.foldl uStepPr initPr.user).config q := by
+  rw [processor_any_query_eq_fresh ops q hq ((processor_input_current_of_history false ops).2 hc),
+    processor_config_of_history]
+
+/-- Processor (model in which the automatic filter is not stored): earlier queries — `probs` with or without a
+precision, `samples` — are irrelevant: deleting them from the history changes no answer -/
+theorem processor_earlier_queries_irrelevant (ops : List PrOp) (q : PrOp) (hq : q.isQuery = true)
+    (hc : (exec (stepPr false) initPr ops).inputCurrent) :
+    (stepPr false (exec (stepPr false) initPr ops) q).2 =
+      (stepPr false (exec (stepPr false) initPr (ops.filter fun op => !op.isQuery)) q).2 := by
+  have hu := exec_user_filter false initPr ops
+  have hcfg : (exec (stepPr false) initPr (ops.filter fun op => !op.isQuery)).config =
+      (exec (stepPr false) initPr ops).config := by
+    rw [← user_config, ← user_config, hu]
+  have hc' : (exec (stepPr false) initPr (ops.filter fun op => !op.isQuery)).inputCurrent :=
+    (user_inputCurrent _).1 (by rw [hu]; exact (user_inputCurrent _).2 hc)
+  rw [processor_any_query_eq_fresh ops q hq hc, processor_any_query_eq_fresh _ q hq hc', hcfg]
+
+/-- the same with the hypothesis replaced by the decidable condition on the history -/
+theorem processor_earlier_queries_irrelevant_tracked (ops : List PrOp) (q : PrOp) (hq : q.isQuery = true)
+    (ht : inputTracked ops = true) :
+    (stepPr false (exec (stepPr false) initPr ops) q).2 =
+      (stepPr false (exec (stepPr false) initPr (ops.filter fun op => !op.isQuery)) q).2 :=
+  processor_earlier_queries_irrelevant ops q hq (inputCurrent_of_tracked false ops ht)
+
+/-- non-vacuity: a tracked history whose queries fill the simulator, the inputs map and the precision flag, and
+the same history without them -/
+example : inputTracked [.addComp 1, .withInput .bs 3 2, .probs (some 5), .samples, .setPs 4, .probs none,
+      .withInput .bs 4 1] = true ∧
+    ([PrOp.addComp 1, .withInput .bs 3 2, .probs (some 5), .samples, .setPs 4, .probs none,
+      .withInput .bs 4 1].filter fun op => !op.isQuery) =
+      [PrOp.addComp 1, .withInput .bs 3 2, .setPs 4, .withInput .bs 4 1] := by
+  exact ⟨by decide, rfl⟩
+
+/-- the code as it is (`stepPr true`) does NOT have this property, even on tracked histories: the first
+`probs()` stores the automatic filter (2 photons), so the answer for the later 1-photon input differs from the
+answer of the same history without that query (the open finding `processor-auto-filter-persists`) -/
+theorem processor_earlier_queries_relevant_on_current_code :
+    ¬ ∀ (ops : List PrOp) (q : PrOp), q.isQuery = true → inputTracked ops = true →
+      (stepPr true (exec (stepPr true) initPr ops) q).2 =
+        (stepPr true (exec (stepPr true) initPr (ops.filter fun op => !op.isQuery)) q).2 := by
+  intro h
+  have := h [.addComp 1, .withInput .bs 3 2, .probs none, .withInput .bs 4 1] (.probs none) rfl (by decide)
+  revert this
+  decide
+
+/-! ### the `iff` for `inputCurrent` when NO user filter is stored
+
+  Without a user filter the automatic value is computed at every call (model `stepPr false`) from the photons of
+  the merged input minus the photons of the CURRENT heralds, so besides the herald identifier written into the
+  input the herald photon counts matter — exactly through `i.n + i.nHer - nHer = i.n` (truncated subtraction:
+  the old heralds' photons may be fewer than the new ones').
+-/
+
+/-- after ANY history that leaves a Fock-state input, no user filter and a perfect source, `probs(precision)`
+answers what a fresh processor answers IF AND ONLY IF the heralds written into the merged input are the current
+ones and the automatic photon count computed from the merged input is the user's photon count -/
+theorem processor_query_eq_fresh_iff_heralds_current_auto (ops : List PrOp) (prec : Option Nat) (i : PrIn)
+    (hi : (exec (stepPr false) initPr ops).input = some i) (hk : i.kind = .bs)
+    (hf : (exec (stepPr false) initPr ops).filtUser = none)
+    (hp : (exec (stepPr false) initPr ops).noise.2 = true) :
+    (stepPr false (exec (stepPr false) initPr ops) (.probs prec)).2 =
+        freshPr false (exec (stepPr false) initPr ops).config prec ↔
+      i.her = (exec (stepPr false) initPr ops).her ∧
+        i.n + i.nHer - (exec (stepPr false) initPr ops).nHer = i.n := by
+  have hinv := processor_inv_all_histories false ops
+  have hfresh : freshPr false (exec (stepPr false) initPr ops).config prec =
+      specPr (exec (stepPr false) initPr ops).config prec := by
+    unfold freshPr
+    obtain ⟨c1, c2, c3⟩ := canonPr_state false (exec (stepPr false) initPr ops).config
+    rw [probsPr_spec false _ prec (processor_inv_all_histories false _) c2 c3, c1]
+  have hfs : (exec (stepPr false) initPr ops).filt = none := by
+    rw [hinv.filt (hinv.noauto rfl)]; exact hf
+  rw [hfresh, probsPr_raw_auto false _ prec hinv i hi hk hfs hp, specPr_bs_auto _ prec i hi hk hf hp]
+  simp
+
+/-- non-vacuity, and the photon-count clause is not implied by the first one: after
+`add_herald(2, 1 photon)` the old input fails both clauses; after a herald change that keeps the identifier but
+not the photon count only the second one fails -/
+example : (exec (stepPr false) initPr [.addComp 1, .withInput .bs 3 2, .addHerald 2 1]).input =
+      some ⟨.bs, 3, 2, 0, 0⟩ ∧
+    (exec (stepPr false) initPr [.addComp 1, .withInput .bs 3 2, .addHerald 2 1]).filtUser = none ∧
+    (exec (stepPr false) initPr [.addComp 1, .withInput .bs 3 2, .addHerald 2 1]).noise.2 = true ∧
+    (exec (stepPr false) initPr [.addComp 1, .withInput .bs 3 2, .addHerald 2 1]).her = 2 ∧
+    (exec (stepPr false) initPr [.addComp 1, .addHerald 2 1, .withInput .bs 3 2, .addHerald 2 2]).input =
+      some ⟨.bs, 3, 2, 2, 1⟩ ∧
+    (exec (stepPr false) initPr [.addComp 1, .addHerald 2 1, .withInput .bs 3 2, .addHerald 2 2]).her = 2 ∧
+    (exec (stepPr false) initPr [.addComp 1, .addHerald 2 1, .withInput .bs 3 2, .addHerald 2 2]).nHer = 2 := by
+  decide
+
+/-- no user filter and an IMPERFECT source: `probs` is refused (ValueError) on the long-lived processor and on
+the fresh one alike — there `inputCurrent` is not needed at all -/
+theorem processor_query_eq_fresh_imperfect_no_filter (ops : List PrOp) (prec : Option Nat) (i : PrIn)
+    (hi : (exec (stepPr false) initPr ops).input = some i)
+    (hf : (exec (stepPr false) initPr ops).filtUser = none)
+    (hp : (exec (stepPr false) initPr ops).noise.2 = false) :
+    (stepPr false (exec (stepPr false) initPr ops) (.probs prec)).2 =
+        freshPr false (exec (stepPr false) initPr ops).config prec := by
+  have hinv := processor_inv_all_histories false ops
+  have hfresh : freshPr false (exec (stepPr false) initPr ops).config prec =
+      specPr (exec (stepPr false) initPr ops).config prec := by
+    unfold freshPr
+    obtain ⟨c1, c2, c3⟩ := canonPr_state false (exec (stepPr false) initPr ops).config
+    rw [probsPr_spec false _ prec (processor_inv_all_histories false _) c2 c3, c1]
+  have hfs : (exec (stepPr false) initPr ops).filt = none := by
+    rw [hinv.filt (hinv.noauto rfl)]; exact hf
+  rw [hfresh, probsPr_raw_imperfect false _ prec hinv i hi hfs hp, specPr_imperfect _ prec i hi hf hp]
+
+/-- non-vacuity: an imperfect source, a herald added after the input, no filter -/
+example : (exec (stepPr false) initPr [.addComp 1, .setNoise (2, false), .withInput .bs 3 2, .addHerald 2 1]).input =
+      some ⟨.bs, 3, 2, 0, 0⟩ ∧
+    (exec (stepPr false) initPr [.addComp 1, .setNoise (2, false), .withInput .bs 3 2, .addHerald 2 1]).filtUser =
+      none ∧
+    (exec (stepPr false) initPr [.addComp 1, .setNoise (2, false), .withInput .bs 3 2, .addHerald 2 1]).noise.2 =
+      false := by
+  decide
+
 /-
   What is still outside the model (validated by the correspondence only, or not generated at all):
   * the numbers (answers are provenance); that masked and unmasked evaluation agree after herald post-selection
@@ -716,6 +867,13 @@ example : (exec (stepPr false) initPr [.addComp 1, .setFilter 0, .withInput .bs 
     from the shape of the history (`inputTracked`, `processor_input_current_of_tracked`) and is necessary
     (`processor_query_eq_fresh_iff_heralds_current`, user filter); not proved: the `iff` without a user filter,
     "earlier queries are irrelevant" and a cache-free configuration machine for the Processor;
+    wave 10: all three are now proved — `uStepPr` on the user state (`processor_user_state_of_history`,
+    `processor_config_of_history`, `processor_answer_of_history`), `processor_earlier_queries_irrelevant`
+    (`stepPr false`; refuted for the code as it is by `processor_earlier_queries_relevant_on_current_code`), and
+    `processor_query_eq_fresh_iff_heralds_current_auto` (no user filter, perfect source; imperfect source:
+    `processor_query_eq_fresh_imperfect_no_filter`); still not proved: the `iff` for `samples` and for a
+    distribution input (there `inputCurrent` holds by construction), "earlier queries are irrelevant given the
+    stored filter" for `stepPr true` (the stored filter itself depends on the earlier queries);
   * the automatic photon filter as the code stores it is modelled (`stepPr true`) and refuted
     (`processor_auto_filter_fails_on_current_code`, `…_samples`); for the code as it is the exact statement is
     `processor_query_eq_fresh_given_stored_filter` (all histories: fresh processor given the STORED filter) with
